@@ -11,7 +11,7 @@ ID = "C16"
 LEVEL = "fault_enumeration"
 BUDGET = {
     "quick": {"runs": 2000, "wall": 300, "chunk": 10},
-    "thorough": {"runs": 20000, "wall": 3000, "chunk": 50},
+    "thorough": {"runs": 150000, "wall": 3400, "chunk": 50},
 }
 PALETTE = ["huge_random", "huge_same_sign", "colluding_duplicates", "copy_of_honest_row", "honest_extremes", "zeros", "sign_flip_scaled", "near_honest_mean", "mixed"]
 RULE = (
